@@ -55,11 +55,15 @@ def shrink_overlay(bid=CID):
         if rx.search(text):
             found.append((fn, text))
     if len(found) != 1:
-        checklib.tool_error("C05: expected exactly one non-test file of %s defining maxNumEntries, found %d" % (pkg, len(found)))
+        # spelled differently in the tree under test: run with the unmodified constant (log files never rotate in these short
+        # histories); not a verdict, the evidence says exhaustive:false
+        checklib.log("C05: expected exactly one non-test file of %s defining maxNumEntries, found %d - constant not shrunk" % (pkg, len(found)))
+        return None
     fn, text = found[0]
     new, n = rx.subn(lambda m: "%s%d%s" % (m.group(1), SHRUNK, m.group(3)), text, count=1)
     if n != 1 or new == text:
-        checklib.tool_error("C05: could not rewrite maxNumEntries in %s" % fn)
+        checklib.log("C05: could not rewrite maxNumEntries in %s - constant not shrunk" % fn)
+        return None
     out = os.path.join(checklib.build_dir(bid), "shrunk_" + fn)
     with open(out, "w") as fh:
         fh.write(new)
@@ -174,7 +178,8 @@ def run(tier, replay):
     t0 = time.time()
     # development aid: C05_BUILD=<id> keeps overlay and binaries of parallel runs (other tree, other part) apart
     bid = os.environ.get("C05_BUILD", CID)
-    ov = checklib.gen_overlay(bid, HOOKS, shrink_overlay(bid), also=(CID,))
+    shrunk = shrink_overlay(bid)
+    ov = checklib.gen_overlay(bid, HOOKS, shrunk, also=(CID,))
     bdir = checklib.build_dir(bid)
     scratch = _scratch_root()
     try:
@@ -215,6 +220,9 @@ def run(tier, replay):
             for name in per_part:
                 if i < len(per_part[name]):
                     reports.append(per_part[name][i])
+        if shrunk is None:
+            reports.append({"evaluations": 0, "exhaustive": False, "counters": {"raftlog_constant_not_shrunk": 1},
+                            "notes": ["lib/raftlog maxNumEntries could not be shrunk for this tree: log-file rotation and truncation of whole files are not reached"]})
         flaky = sum((r.get("counters") or {}).get("flaky_failures", 0) for r in reports)
         rc = checklib.finish(CID, tier, LEVEL, RULE, reports, t0, ASSUMPTIONS,
                              extra_cov={"harness_wall_s": wall,
